@@ -31,6 +31,16 @@ def ctor_kwargs(p):
                n_trees=p['trees'], overlap_fraction=p['f'], classification_mode=p['mode'], tuning_metric=p['metric'],
                use_temperature_tuning=p['tune'], split_temperature=p['temp'], temp_tuning_space=p.get('space'),
                keep_weight_frac_in_predict=p['keep'], max_leaf_count_in_ensemble=p['cap'])
+    if p.get('cat'):
+        # categorical groups with code vectors that are NOT the identity (thermometer code, scaled one-hot): the kernels'
+        # categorical path (fast_categorical) then differs from the dense evaluation, so a loaded leaf must take it too
+        d, off, cidx, vecs = p['d'], p['d'], [], []
+        for j, L_ in enumerate(p['cat']):
+            cidx.append(torch.arange(off, off + L_))
+            off += L_
+            vecs.append(torch.tril(torch.ones(L_, L_)) if j % 2 == 0 else 1.7 * torch.eye(L_))
+        kws['categorical_info'] = {'numerical_indices': torch.arange(d), 'categorical_indices': cidx, 'categorical_vectors': vecs}
+        model['fast_categorical'] = True
     return kws
 
 
@@ -41,6 +51,11 @@ def data(p):
     X = torch.randn(n, d, generator=g)
     Xv = torch.randn(max(16, n // 2), d, generator=g)
     Xt = torch.cat([torch.randn(30, d, generator=g), X[:10], 1e4 * torch.randn(5, d, generator=g)])
+    if p.get('cat'):
+        def onehots(m):
+            return torch.cat([torch.nn.functional.one_hot(torch.randint(0, L_, (m,), generator=g), L_).float() for L_ in p['cat']], dim=1)
+        X, Xv = torch.cat([X, onehots(n)], dim=1), torch.cat([Xv, onehots(Xv.shape[0])], dim=1)
+        Xt = torch.cat([Xt[:40], onehots(40)], dim=1)
     if p['task'] == 'reg':
         f = lambda Z: torch.cat([torch.sin(2 * Z[:, :1]), Z[:, 1:2] ** 2][: p['outputs']], dim=1)
         return X, f(X) + 0.05 * torch.randn(n, p['outputs'], generator=g), Xv, f(Xv), Xt
@@ -90,7 +105,19 @@ def attr_equal(src, dst):
     res = {'model': {}, 'leaf': {}, 'node': {}}
     mm = res['model']
     mm['rfm_params'] = src.rfm_params == dst.rfm_params
-    mm['categorical_info'] = src.categorical_info == dst.categorical_info
+    def info_eq(a, b):
+        import torch
+        if a is None or b is None:
+            return a is None and b is None
+        if set(a) != set(b):
+            return False
+        for k in a:
+            va, vb = a[k], b[k]
+            la, lb = (va if isinstance(va, (list, tuple)) else [va]), (vb if isinstance(vb, (list, tuple)) else [vb])
+            if len(la) != len(lb) or not all(torch.equal(torch.as_tensor(x), torch.as_tensor(y)) for x, y in zip(la, lb)):
+                return False
+        return True
+    mm['categorical_info'] = info_eq(src.categorical_info, dst.categorical_info)
     mm['n_classes_'] = src.n_classes_ == getattr(dst, 'n_classes_', None)
     mm['split_temperature'] = src.split_temperature == dst.split_temperature
     if src.n_classes_ > 0:
@@ -222,6 +249,14 @@ def gen_cases(run):
                           bandwidth=5.0, iters=1, L=[1000, 30][k % 2], n=80, d=3, method='random', trees=1, f=0.0, mode='zero_one',
                           metric='accuracy', tune=False, temp=None, space=None, set_temp_after=None, keep=0.99, cap=12, outputs=1,
                           classes=2, pickle=bool(k % 2), solver='log_reg', dseed=r.randint(0, 10 ** 6)))
+    # categorical features with non-identity code vectors and the kernels' categorical path
+    cat_kernels = [k for k in KERNELS if k[0] in ('l2', 'l1', 'lpq')]
+    for k in range(3 if run.tier == 'quick' else 12):
+        cases.append(dict(family='fitted-models', task=['reg', 'class', 'reg'][k % 3], kernel=list(cat_kernels[k % len(cat_kernels)]), q=1.0,
+                          diag=[False, True, False][k % 3], adaptive=False, bandwidth=5.0, iters=r.choice([0, 1]), L=[1000, 30, 24][k % 3], n=90, d=2,
+                          method='random', trees=1, f=0.0, mode='zero_one', metric=None, tune=False, temp=None, space=None,
+                          set_temp_after=None, keep=0.99, cap=12, outputs=1, classes=3, pickle=bool(k % 2), cat=[3, 2] if k % 2 else [4],
+                          dseed=r.randint(0, 10 ** 6)))
     return cases
 
 
